@@ -16,6 +16,8 @@ EXPLANATION = (
     'a step run in the specified order; the strategy enum maps to the specified fractions.  Equality of gradients across '
     'configurations as values is not decided.')
 
+NOT_DECIDED = 'equality of gradients across configurations as values; grid arithmetic'
+
 
 def run(ctx: Ctx) -> None:
     ctx.do(C.rule_ts_fut)
